@@ -1323,10 +1323,40 @@ fn run_case(
     if !equal {
         diff_json("", &twin_final["view"], &view, &mut diff);
     }
+    // What the still-running instance shows must also be what is stored: a
+    // fresh runtime on the same directory (nothing pumped) shows the same
+    // views -- an acknowledged command is not lost, a failed one does not
+    // live on in memory only.
+    let mut equal_restart = true;
+    let mut diff_restart = Vec::new();
+    let mut restart2_err = Value::Null;
+    if !down {
+        match guarded(|| restart(&mut w)) {
+            Outcome::Ok(Ok(())) => {
+                let view2 = final_view(&mut w);
+                equal_restart = view2 == twin_final["view"];
+                if !equal_restart {
+                    diff_json(
+                        "", &twin_final["view"], &view2, &mut diff_restart
+                    );
+                }
+            }
+            Outcome::Ok(Err(e)) => {
+                equal_restart = false;
+                restart2_err = json!(e);
+            }
+            Outcome::Panic(m) | Outcome::Crash(m) => {
+                equal_restart = false;
+                restart2_err = json!(format!("panic {m}"));
+            }
+        }
+    }
     events.push(json!({
         "ev": "Final", "case": id, "resubmit": resub, "rest": rest_res,
         "settled": settled, "settledok": settled.get("ok").is_some(),
         "equal": equal, "diff": diff,
+        "equalrestart": equal_restart, "diffrestart": diff_restart,
+        "restart2_err": restart2_err,
         "obs": observe_rel(&mut w, Some(&allow_final)),
     }));
     events
